@@ -53,6 +53,7 @@ type peer struct {
 	closed  bool
 	last    time.Time
 	parked  int
+	base    int // messages before this index belong to an earlier login on the connection
 }
 
 func newPeer(replies [][]byte) *peer {
@@ -83,7 +84,7 @@ func (p *peer) Write(b []byte) (int, error) {
 		if pkt[1]&1 == 1 {
 			p.msgs = append(p.msgs, p.cur)
 			p.cur = nil
-			if k := len(p.msgs) - 1; k < len(p.replies) {
+			if k := len(p.msgs) - 1 - p.base; k >= 0 && k < len(p.replies) {
 				p.out = append(p.out, p.replies[k]...)
 			}
 		}
@@ -302,8 +303,11 @@ type Result struct {
 }
 
 // Run performs one login against the scripted replies (wire bytes per round).
-func Run(cfg Cfg, replies [][]byte) (res Result) {
-	p := newPeer(replies)
+// Run performs one login against the scripted replies (wire bytes per round).  With a prelude, a first login with the
+// same configuration is made on the same connection and channel against the prelude's replies (a rejected attempt the
+// application retries); the result is that of the second login.
+func Run(cfg Cfg, replies [][]byte, prelude [][]byte) (res Result) {
+	p := newPeer(append(append([][]byte{}, prelude...), replies...))
 	info := &tds.Info{}
 	info.ChannelPackageQueueSize = 1000
 	conn, err := tds.VerifNewConn(context.Background(), info, p, true)
@@ -314,6 +318,34 @@ func Run(cfg Cfg, replies [][]byte) (res Result) {
 	if err != nil {
 		panic(err)
 	}
+	defer func() {
+		conn.VerifCancel()
+		p.Close()
+	}()
+	skip := 0
+	if prelude != nil {
+		pre := oneLogin(conn, ch, p, cfg)
+		if pre.Class < 0 {
+			return pre
+		}
+		p.mu.Lock()
+		skip = len(p.msgs)
+		// the retry starts from a clean slate on the peer's side: replies of the first attempt that were never asked for
+		// are dropped, the second attempt's replies follow the messages it sends
+		for len(p.replies) > 0 && len(p.replies) > len(replies) {
+			p.replies = p.replies[1:]
+		}
+		p.base = skip
+		p.mu.Unlock()
+	}
+	res = oneLogin(conn, ch, p, cfg)
+	if skip <= len(res.Msgs) {
+		res.Msgs = res.Msgs[skip:]
+	}
+	return res
+}
+
+func oneLogin(conn *tds.Conn, ch *tds.Channel, p *peer, cfg Cfg) (res Result) {
 	caps0 := conn.Caps
 	ctx, cancel := context.WithCancel(context.Background())
 	type outcome struct {
@@ -349,8 +381,6 @@ loop:
 		case <-hard:
 			res.Class = -2
 			cancel()
-			conn.VerifCancel()
-			p.Close()
 			return res
 		case <-tick.C:
 			q, last := p.quiet()
@@ -388,11 +418,9 @@ loop:
 		res.Caps = renderPkg(conn.Caps)
 	}
 	p.mu.Lock()
-	res.Msgs = p.msgs
+	res.Msgs = append([][][]byte{}, p.msgs...)
 	res.Partial = p.cur
 	p.mu.Unlock()
-	conn.VerifCancel()
-	p.Close()
 	return res
 }
 
@@ -541,6 +569,7 @@ type Script struct {
 	Key    *rsa.PrivateKey
 	Pem    []byte // the PEM bytes the script carries (for the oracle)
 	Tag    string
+	Retry  [][]Item // if set: replies of a first login attempt on the same connection, which must be rejected
 }
 
 func (s Script) packetise(g *pk.Gen, mode int) [][]core.Pkt {
@@ -588,6 +617,7 @@ func (s Script) packetise(g *pk.Gen, mode int) [][]core.Pkt {
 // Prepared is a script with its packetisation fixed (all random choices are made before the parallel runs).
 type Prepared struct {
 	S       Script
+	Prelude [][]byte // wire replies of a first, rejected login on the same connection (nil: none)
 	Replies [][]byte
 	RT      sx.L
 	In, Out sx.T
@@ -596,6 +626,12 @@ type Prepared struct {
 func Prepare(g *pk.Gen, s Script, pmode int) *Prepared {
 	rounds := s.packetise(g, pmode)
 	p := &Prepared{S: s, RT: sx.L{}}
+	if s.Retry != nil {
+		pre := Script{Rounds: s.Retry}
+		for _, pkts := range pre.packetise(g, pmode) {
+			p.Prelude = append(p.Prelude, core.WireBytes(pkts))
+		}
+	}
 	for _, pkts := range rounds {
 		p.Replies = append(p.Replies, core.WireBytes(pkts))
 		var pt sx.L
@@ -616,7 +652,7 @@ var seenMu sync.Mutex
 // Exec runs the login and fills In / Out.
 func (p *Prepared) Exec() {
 	s := p.S
-	res := Run(s.Cfg, p.Replies)
+	res := Run(s.Cfg, p.Replies, p.Prelude)
 	// what the client sent: complete messages, then the packets of an unfinished one (if any); ciphertexts blanked
 	msgs := res.Msgs
 	complete2 := len(msgs) >= 2
